@@ -172,3 +172,9 @@ Proof. reflexivity. Qed.
 Lemma pin_skel_transferLeaderIn : Gen_C11.skel_transferLeaderIn =
   [Call "RandFollowerRegion"; IfE "plan.region == nil" [Ret] []; Call "GetStore"; IfE "plan.source == nil" [Ret] []; Call "NewPlacementLeaderSafeguard"; Call "NewCandidates"; Call "FilterTarget"; Call "PickFirst"; IfE "v4 == nil" [Ret] []; Call "createOperator"; Ret].
 Proof. reflexivity. Qed.
+
+(* PersistOptions.CheckLabelProperty: two nested loops, `return true` on the first (entry, label) pair with equal key and value,
+   `false` after both loops = lib/C10_Cluster.check_label_property (existsb over entries of existsb over labels) *)
+Lemma pin_src_CheckLabelProperty : Gen_C11.src_CheckLabelProperty =
+  "{ v1 := o.labelProperty.Load().(LabelPropertyConfig) for _, v2 := range v1[typ] { for _, v3 := range labels { if v3.Key == v2.Key && v3.Value == v2.Value { return true } } } return false }".
+Proof. reflexivity. Qed.
